@@ -706,7 +706,16 @@ class Frame:
                   "np.ravel", "np.unique", "np.percentile", "list", "tuple", "reversed", "sorted", "np.flip", "np.atleast_1d", "np.ceil", "np.floor"):
             if not args:
                 return TOP
-            if fn in ("max", "min", "np.maximum", "np.minimum") and len(args) >= 2 and "key" not in kw:
+            if fn in ("max", "min", "np.maximum", "np.minimum", "np.clip") and len(args) >= 2 and "key" not in kw:
+                # a length / area / volume clamped by a numeric literal: the result no longer scales with the neuron
+                for t_, a_ in zip(args, c.args):
+                    lit = a_.operand if isinstance(a_, ast.UnaryOp) else a_
+                    if isinstance(lit, ast.Constant) and isinstance(lit.value, (int, float)) and not isinstance(lit.value, bool) and lit.value != 0:
+                        others = [elem(x) if kind(x) == "Seq" else x for x, y in zip(args, c.args) if y is not a_]
+                        dim = [x for x in others if kind(x) in ("S", "E") and x[1] != 0]
+                        if dim:
+                            self.note(c, Bad(f"a quantity of degree {dim[0][1]} is clamped by the literal {ast.unparse(a_)} in `{ast.unparse(c)[:60]}`: the result does not scale "
+                                             f"with the neuron (the same neuron in other units or at another size gives a different answer)"))
                 out = args[0]
                 for t in args[1:]:
                     out = join(elem(out) if kind(out) == "Seq" else out, elem(t) if kind(t) == "Seq" else t)
